@@ -2,3 +2,5 @@
 pub mod rng;
 pub mod runner;
 pub mod sk;
+pub mod detcomp;
+pub mod internops;
